@@ -61,7 +61,7 @@ fn hc(thorough: bool) -> HistCheck<'static> {
 
 pub fn run(ctx: &Ctx, col: &Collector) -> Meta {
     let h = hc(ctx.thorough);
-    run_hist(ctx, col, &h, ctx.n(6000, 100_000));
+    run_hist(ctx, col, &h, ctx.n(6000, 40_000));
     Meta {
         level: "exploration",
         rule: "random histories of rekey, prune (arbitrary policies), attribute / dimension deletion, update, refresh with either flag, key generation, encapsulation under old and new public keys; after every prune the serialized master chains must have length exactly 1 and hold the previous newest secret, after every refresh every secret of every user chain must be a revision the master key still holds, in order (compared byte-wise through the independent codec), and the decapsulation matrix must agree with the model (no opening under pruned revisions or deleted rights, everything else kept). Non-trivial = history with a prune or a deletion+update, followed by the refresh of a key that held a removed revision, and a matrix check that contains an encapsulation made under a removed revision; distinct by the whole case".into(),
